@@ -431,6 +431,24 @@ def extra_numpy_stream(rng):
         ('const * (x + 0)', lambda: c.Expression(np.array([2.0, -3.0, 0.5])) * (x + 0), lambda: np.array([2.0, -3.0, 0.5]) * vx),
         ('mixed cells product', lambda: c.hstack((1.5, x[0])) * c.hstack((x[1], 2.0)), lambda: np.array([1.5 * vx[1], 2.0 * vx[0]])),
         ('outer(const, 1.0 * x)', lambda: c.outer(np.array([1.0, -2.0]), 1.0 * x), lambda: np.outer(np.array([1.0, -2.0]), vx)),
+        # every operator with default axis arguments on a 3-d Expression (defaults must be numpy's)
+        ('trace(3-d, default axes)', lambda: c.trace(c.stack((Y, 2 * Y, Y + 1.0), axis=2)), lambda: np.trace(np.stack((vY, 2 * vY, vY + 1.0), axis=2))),
+        ('trace(3-d cube, default axes)', lambda: c.trace(c.stack((Y, 3 * Y - 1.0), axis=0)), lambda: np.trace(np.stack((vY, 3 * vY - 1.0), axis=0))),
+        ('trace(3-d, axis1=1, axis2=2)', lambda: c.trace(c.stack((Y, 2 * Y), axis=0), axis1=1, axis2=2), lambda: np.trace(np.stack((vY, 2 * vY), axis=0), axis1=1, axis2=2)),
+        ('tril(3-d)', lambda: c.tril(c.stack((Y, 2 * Y, Y + 1.0), axis=0)), lambda: np.tril(np.stack((vY, 2 * vY, vY + 1.0), axis=0))),
+        ('triu(3-d)', lambda: c.triu(c.stack((Y, 2 * Y, Y + 1.0), axis=2), 1), lambda: np.triu(np.stack((vY, 2 * vY, vY + 1.0), axis=2), 1)),
+        ('sum(3-d, axis=1)', lambda: c.sum(c.stack((Z, 2 * Z), axis=0), axis=1), lambda: np.sum(np.stack((vZ, 2 * vZ), axis=0), axis=1)),
+        ('sum(3-d)', lambda: c.sum(c.stack((Z, 2 * Z), axis=2)), lambda: np.sum(np.stack((vZ, 2 * vZ), axis=2))),
+        ('concatenate(3-d, default axis)', lambda: c.concatenate((c.stack((Y, 2 * Y), axis=2), c.stack((Y, Y), axis=2))),
+         lambda: np.concatenate((np.stack((vY, 2 * vY), axis=2), np.stack((vY, vY), axis=2)))),
+        ('stack(default axis)', lambda: c.stack((Z, 2 * Z)), lambda: np.stack((vZ, 2 * vZ))),
+        ('repeat(3-d, default axis)', lambda: c.repeat(c.stack((Y, 2 * Y), axis=2), 2), lambda: np.repeat(np.stack((vY, 2 * vY), axis=2), 2)),
+        ('tile(3-d)', lambda: c.tile(c.stack((Y, 2 * Y), axis=2), 2), lambda: np.tile(np.stack((vY, 2 * vY), axis=2), 2)),
+        ('split(default axis)', lambda: c.split(c.stack((Y, 2 * Y), axis=2), 2)[1], lambda: np.split(np.stack((vY, 2 * vY), axis=2), 2)[1]),
+        ('array_split(2-d, default axis)', lambda: c.array_split(Z, 2)[0], lambda: np.array_split(vZ, 2)[0]),
+        ('dsplit', lambda: c.dsplit(c.stack((Y, 2 * Y), axis=2), 2)[1], lambda: np.dsplit(np.stack((vY, 2 * vY), axis=2), 2)[1]),
+        ('diag(k=1)', lambda: c.diag(Y, 1), lambda: np.diag(vY, 1)),
+        ('diagflat(k=-1)', lambda: c.diagflat(x, -1), lambda: np.diagflat(vx, -1)),
         ('constant matrix @ constant Expression', lambda: np.diag([1.0, 10.0, 100.0]) @ c.Expression(np.array([1.0, 2.0, 3.0])),
          lambda: np.array([1.0, 20.0, 300.0])),
     ]
@@ -484,6 +502,82 @@ def extra_numpy_stream(rng):
                 return '%s: value differs from numpy' % name
         except Exception as e:
             return '%s raised %r' % (name, e)
+    return None
+
+
+def oracle_inplace_views(rng):
+    """an Expression is a numpy array of affine functions also under IN-PLACE writes: a write through a view (a row, the transpose, a slice,
+    `E += k`) changes the array, and every later product / comparison / value must see it, whatever was computed from the array before"""
+    c = cl()
+    w = World(rng)
+    x, Y = w.vars[0], w.vars[1]
+    vx, vY = w.values['x'], w.values['Y']
+    M = np.array([[1.0, 2.0], [-1.0, 0.5]])
+
+    def writes():
+        def w_row(E, N, X, NX):
+            row, nrow = E[1], N[1]
+            row[0] = X[0] * 2.0
+            nrow[0] = NX[0] * 2.0
+        def w_T(E, N, X, NX):
+            E.T[0, 1] = X[1] - 1.0
+            N.T[0, 1] = NX[1] - 1.0
+        def w_slice(E, N, X, NX):
+            sl, nsl = E[:, 1], N[:, 1]
+            sl[1] = X[2] + X[0]
+            nsl[1] = NX[2] + NX[0]
+        def w_iadd(E, N, X, NX):
+            E += 1.0
+            N += 1.0
+        def w_direct(E, N, X, NX):
+            E[0, 0] = 3.0 * X[1]
+            N[0, 0] = 3.0 * NX[1]
+        def w_ravel(E, N, X, NX):
+            f, nf = E.ravel(), N.ravel()      # a view for contiguous arrays
+            f[3] = X[0] - X[2]
+            nf[3] = NX[0] - NX[2]
+        return [('row = E[1]; row[0] = ...', w_row), ('E.T[0, 1] = ...', w_T), ('col = E[:, 1]; col[1] = ...', w_slice), ('E += 1', w_iadd),
+                ('E[0, 0] = ...', w_direct), ('f = E.ravel(); f[3] = ...', w_ravel)]
+
+    def observe(E, N, tag):
+        obs = [('M @ E', lambda: M @ E, lambda: M @ N), ('E @ M', lambda: E @ M, lambda: N @ M), ('E.value', lambda: E, lambda: N),
+               ('E.T @ M', lambda: E.T @ M, lambda: N.T @ M), ('sum(E)', lambda: c.sum(E, axis=0), lambda: N.sum(axis=0))]
+        for name, fe, fn in obs:
+            got = np.asarray(fe().value, dtype=float)
+            want = np.asarray(fn(), dtype=float)
+            if got.shape != want.shape or not np.allclose(got, want):
+                return '%s after %s: value %s, numpy gives %s' % (name, tag, got.tolist(), want.tolist())
+        return None
+    try:
+        with warnings.catch_warnings():
+            warnings.simplefilter('ignore')
+            for name, wr in writes():
+                for first in ('matmul', 'rmatmul', 'equiv', 'none'):
+                    E = c.Expression(2.0 * Y + 1.0)
+                    N = 2.0 * vY + 1.0
+                    E0 = c.Expression(2.0 * Y + 1.0)
+                    if first == 'matmul':
+                        _ = M @ E
+                    elif first == 'rmatmul':
+                        _ = E @ M
+                    elif first == 'equiv':
+                        if not c.Expression.are_equivalent(E, E0):
+                            return 'are_equivalent(E, copy of E) is False'
+                    wr(E, N, x, vx)
+                    why = observe(E, N, '%s (first use: %s)' % (name, first))
+                    if why:
+                        return why
+                    same = bool(np.allclose(N, 2.0 * vY + 1.0))
+                    eq = c.Expression.are_equivalent(E, E0)
+                    if eq and not same:
+                        return 'are_equivalent(E, E0) is True after %s changed E (first use: %s)' % (name, first)
+                    # a second write after the observations
+                    wr(E, N, x, vx)
+                    why = observe(E, N, '%s twice (first use: %s)' % (name, first))
+                    if why:
+                        return why
+    except Exception as e:
+        return 'in-place writes through views raised %r' % (e,)
     return None
 
 
@@ -653,7 +747,7 @@ def run(ctx):
                         '(the numpy-differential oracle passed on this program)' % (cases[idx][0], cases[idx][2][:10], model_out[:2500]),
                         inputs={'program': cases[idx][0]}, failing_input_found=False)
     for name, f in (('extra_numpy_stream', lambda: extra_numpy_stream(ctx.rng)), ('fixed_defect_probes', probe_fixed_defects),
-                    ('are_equivalent', lambda: oracle_equiv(ctx.rng))):
+                    ('are_equivalent', lambda: oracle_equiv(ctx.rng)), ('inplace_views', lambda: oracle_inplace_views(ctx.rng))):
         why = f()
         ctx.suites[name] = {'cases': 1, 'failure': why}
         ctx.evaluations += 1
